@@ -78,8 +78,10 @@ def policy : List ((String × String) × Policy) := [
   -- ownership lists: set before Serve; defaults filled in lazily by setDefaultOwnership
   -- (residual, see DESIGN.md: a ResetAll issued from another goroutine while Serve is still
   -- subscribing is not ordered with that lazy write)
-  (("Service", "resetResources"), .setup ["Service.SetOwnedResources", "Service.setDefaultOwnership"]),
-  (("Service", "resetAccess"), .setup ["Service.SetOwnedResources", "Service.setDefaultOwnership"]),
+  (("Service", "resetResources"), .setup ["Service.SetOwnedResources", "Service.setDefaultOwnership", "Service.serve"]),
+  (("Service", "resetAccess"), .setup ["Service.SetOwnedResources", "Service.setDefaultOwnership", "Service.serve"]),
+  (("Service", "defaultRes"), .setup ["Service.SetOwnedResources", "Service.setDefaultOwnership", "Service.serve"]),
+  (("Service", "defaultAccess"), .setup ["Service.SetOwnedResources", "Service.setDefaultOwnership", "Service.serve"]),
   -- work: the callback queue is guarded; the rest is set at construction (composite literal)
   (("work", "queue"), .guarded []),
   (("work", "s"), .setup []),
